@@ -117,7 +117,11 @@ func (w *Writer) Flush() (err error) {
 	if w.closed {
 		return errWriterClosed
 	}
-	return w.lc.Flush()
+	err = w.lc.Flush()
+	if err != nil {
+		w.err = err
+	}
+	return err
 }
 
 func (w *Writer) Close() (err error) {
@@ -131,8 +135,10 @@ func (w *Writer) Close() (err error) {
 		return nil
 	}
 	err = w.lc.Close()
-	if err == nil {
-		w.closed = true
+	if err != nil {
+		w.err = err
+		return err
 	}
-	return err
+	w.closed = true
+	return nil
 }
